@@ -24,13 +24,34 @@ func vfH_C17_noninterference(tier int) {
 	op := vfChoice(len(c17Ops))
 	budget := tier
 	switch op {
-	case 0, 2, 6, 10, 11:
+	case 0, 6, 10, 11:
 		budget = 1 + tier // the operations that traverse the whole statement see every variant of it
+	case 2:
+		budget = 2 * tier
 	}
-	g := &vfGen{tier: tier, budget: budget}
+	// the parsing operations see symbolic keyword spelling and whitespace, and run first on fresh package state
+	// (no sequential warm-up parse that could hide a lazily initialised or memoising global);
+	// for the operations on a shared AST the spelling of the text it came from is irrelevant
+	g := &vfGen{tier: tier, budget: budget, plainKW: op > 1, plainWS: op > 1}
+	// wildcard expansion: which stores happen does not depend on the letters of the names (quick tier)
+	vfConcreteHoles = op == 11 && tier == 0
 	vfStmtGens[kind].gen(g)
+	vfConcreteHoles = false
 	text := g.text()
 	vfNote(text)
+	if op <= 1 {
+		n := vfSharedWrites(nil, func() {
+			if op == 0 {
+				ParseQuery(text)
+			} else {
+				ParseExpr(text)
+			}
+		})
+		vfAssert(n == 0, "C17/"+c17Ops[op]+"-performs-no-store-into-shared-state")
+		vfReach("C17_noninterference/ok")
+		vfReach("C17_noninterference/op/" + c17Ops[op])
+		return
+	}
 	stmt, err := ParseStatement(text)
 	if err != nil {
 		return
@@ -97,4 +118,5 @@ func vfH_C17_noninterference(tier int) {
 	})
 	vfAssert(n == 0, "C17/"+c17Ops[op]+"-performs-no-store-into-shared-state")
 	vfReach("C17_noninterference/ok")
+	vfReach("C17_noninterference/op/" + c17Ops[op])
 }
